@@ -71,6 +71,41 @@ class _StopShrinking(BaseException):
     pass
 
 
+class WallClockStall(BaseException):
+    """Safety net, not an oracle: one case ran for minutes of real time (normal cases take milliseconds). The code under test is spinning or
+    blocked in a way the simulated world cannot see (e.g. a busy loop in synchronous code). Reported as a harness error (exit 2, inconclusive)
+    unless the layer declares that non-termination is part of its property (stall_is_violation)."""
+
+
+STALL_S = float(os.environ.get("VERIF_STALL_S") or "150")
+
+
+def _alarm(signum, frame):
+    raise WallClockStall()
+
+
+def guarded_execute(prop, layer, case):
+    """layer.execute(case) under a real-time watchdog (main thread of the worker process only)."""
+    import threading
+
+    if threading.current_thread() is not threading.main_thread():
+        return layer.execute(case)
+    old = signal.signal(signal.SIGALRM, _alarm)
+    signal.setitimer(signal.ITIMER_REAL, STALL_S)
+    try:
+        return layer.execute(case)
+    except WallClockStall:
+        if getattr(layer, "stall_is_violation", False):
+            from .common import V
+
+            return Outcome([V(prop.id, "stall-wallclock", f"one case did not finish within {STALL_S:.0f} s of real time (normal: milliseconds): the code "
+                              f"under test spins or blocks outside the simulated world; case: {json.dumps(jsonable(case))[:600]}")], ["stall"], True)
+        raise HarnessError(f"case did not finish within {STALL_S:.0f} s of real time (inconclusive): {json.dumps(jsonable(case))[:400]}")
+    finally:
+        signal.setitimer(signal.ITIMER_REAL, 0)
+        signal.signal(signal.SIGALRM, old)
+
+
 class LayerStats:
     def __init__(self):
         self.evals = 0
@@ -135,7 +170,7 @@ def _run_hyp_layer(prop, layer, n_examples, seed, tier, known, stats: LayerStats
         if state["deadline"] is not None and time.monotonic() > state["deadline"]:
             raise _StopShrinking()  # a BaseException: Hypothesis lets it through, the best failure so far is kept
         case = unjson(jsonable(case))
-        out = layer.execute(case)
+        out = guarded_execute(prop, layer, case)
         fresh = _classify(out, known, stats) if state["first"] is None else [
             v for v in out.violations if match_known(v["sig"], known) is None]
         if state["first"] is None:
@@ -176,7 +211,7 @@ def _run_enum_layer(prop, layer, tier, shard, nshards, known, stats: LayerStats)
         if i % nshards != shard:
             continue
         case = unjson(jsonable(case))
-        out = layer.execute(case)
+        out = guarded_execute(prop, layer, case)
         fresh = _classify(out, known, stats)
         stats.record(case, out)
         stats.enum_done += 1
